@@ -4,7 +4,7 @@
 # usage: tools/seedtest.sh <patch.diff> <prop> [tier ...]      (tiers default: quick; add thorough to try both)
 set -u
 export GOFLAGS=-mod=mod GOPROXY=off GOSUMDB=off GOTOOLCHAIN=local
-patch=$1; prop=$2; shift 2
+patch=$(readlink -f "$1"); prop=$2; shift 2
 tiers=${*:-quick}
 cd /repo || exit 2
 if [ -n "$(git status --porcelain --untracked-files=no)" ]; then echo "SEEDTEST: /repo is not clean"; exit 2; fi
